@@ -126,6 +126,7 @@ Outcome run_threads(const Plan & plan, const RunCtx & ctx)
       fs::put(p, ga_dataset(GA_SETS[(size_t)(op.arg(2) % 3)]));
     }
   }
+  sched::set_io_points(plan.hint("io_points", 0) != 0);
   const i64 MAX_STEPS = 20000000;
   // ---- concurrent phase (first: so that first-use initialisation of library statics happens under threads) ----
   std::vector<TaskLog> conc((size_t)ntasks);
@@ -256,6 +257,7 @@ Plan gen_threads(u64 seed, u64 idx, const RunCtx & ctx)
   Rng r(hmix(hmix(seed, hstr("threads")), idx));
   int nt = r.chance(0.75) ? 2 : 3;
   p.hdr["ntasks"] = std::to_string(nt);
+  p.hdr["io_points"] = ctx.fresh ? "1" : "0";
   std::vector<i64> quads((size_t)nt, 0);
   bool any_ga = false;
   // twins: with probability 0.4 every client runs the SAME configuration - the only way two threads meet
@@ -330,6 +332,12 @@ Plan gen_threads(u64 seed, u64 idx, const RunCtx & ctx)
     // a restores its saved handler, then b continues into its quadrature
     Op o3; o3.k = "sw"; o3.a = {r.chance(0.7) ? SP_GSL_SET_POST : SP_QNG_POST, wa + (r.chance(0.7) ? 0 : 1), a, b}; p.ops.push_back(o3);
     if (r.chance(0.4)) { Op o4; o4.k = "sw"; o4.a = {0, r.range(1, 200), b, a}; p.ops.push_back(o4); }
+  }
+  // first-use window: preempt a task inside one of its first reads (lazily loaded catalogue lists, gA tables)
+  if (ctx.fresh && r.chance(0.6)) {
+    int a = (int)r.below((u64)nt);
+    Op o; o.k = "sw"; o.a = {SP_IO, r.range(1, 8), a, other(a)}; p.ops.push_back(o);
+    if (r.chance(0.5)) { Op o2; o2.k = "sw"; o2.a = {0, r.range(1, 60), other(a), a}; p.ops.push_back(o2); }
   }
   return p;
 }
